@@ -20,9 +20,14 @@
    C20_excluded_names, C20_file_rule, C20_letters_need_the_dot, C20_bare_letters_are_a_name,
    C20_suffix_after_extension (all for EVERY byte string, no hypothesis beyond "a path element
    has no separator"), C20_top_level_file_rule and C20_model_satisfies_P_files (file by file
-   through discovery and the --config round; hypothesis wf_children as above). *)
+   through discovery and the --config round; hypothesis wf_children as above).
+
+   Entry kinds (part 4): the on-disk tree with regular files, directories, symbolic links (with
+   what they resolve to) and FIFOs; the walk sees it through Lstat.  C20_walk_sees_lstat,
+   C20_discovery_by_kind, C20_link_is_hook_whatever_target, C20_file_or_fifo_is_hook,
+   C20_bad_hook_fails_init, C20_model_satisfies_PX. *)
 From Coq Require Import Sorted.
-From Verif Require Import Common C20_Model C20_Spec C20_Corr C20_Proofs C20_NameProofs.
+From Verif Require Import Common C20_Model C20_Spec C20_Corr C20_Proofs C20_NameProofs C20_KindProofs.
 Local Open Scope N_scope.
 
 (* the discovered hooks are exactly the files meeting the conditions of the statement *)
@@ -275,3 +280,87 @@ Example C20_names_of_the_task :
   /\ check_executable_hook_file [46;121;97;109;108] 493 = Some ErrFileIsHidden
   /\ P_files (mkInput [47; 119] [104] ex_names [] true) (model_of (mkInput [47; 119] [104] ex_names [] true)) = true.
 Proof. repeat split; vm_compute; reflexivity. Qed.
+
+(* ==================================================================== *)
+(* part 4: the KIND of an entry (regular file, directory, symbolic link, FIFO)   *)
+(* ==================================================================== *)
+
+(* the files the walk sees are the non-directory entries of the on-disk tree, one for one and in
+   the same order, each with the mode Lstat reports for its kind (a link: Lrwxrwxrwx, never
+   followed, never descended into) *)
+Theorem C20_walk_sees_lstat : forall xs,
+  all_files (map lstat xs) = map lstat_entry (all_xfiles xs).
+Proof. exact all_files_lstat. Qed.
+Print Assumptions C20_walk_sees_lstat.
+
+(* discovery entry by entry, for every kind: the entry's relative path is among the hooks iff the
+   entry meets the conditions of the statement with the permission bits it carries itself *)
+Theorem C20_discovery_by_kind : forall parent root xs e,
+  wf_children (map lstat xs) = true -> In e (all_xfiles xs) ->
+  (In (xentry_path e) (discover parent root (map lstat xs)) <-> xentry_is_hook e = true).
+Proof. exact discovery_by_kind. Qed.
+Print Assumptions C20_discovery_by_kind.
+
+(* a symbolic link is a hook iff its own name and its place allow it - whatever it points to
+   (a script under lib or in a hidden directory, a directory, nothing, a file without execute bits) *)
+Theorem C20_link_is_hook_whatever_target : forall anc n t,
+  xentry_is_hook (anc, n, KSymlink t)
+  = negb (hidden n) && negb (excluded_ending n)
+    && forallb (fun d => negb (named_lib d) && negb (hidden d)) anc.
+Proof. exact link_is_hook. Qed.
+Print Assumptions C20_link_is_hook_whatever_target.
+
+(* a regular file and a FIFO: the execute bits of the entry's own mode decide *)
+Theorem C20_file_or_fifo_is_hook : forall anc n m,
+  xentry_is_hook (anc, n, KRegular m) = xentry_is_hook (anc, n, KFifo m)
+  /\ (xentry_is_hook (anc, n, KRegular m) = true <->
+      has_exec_bit m = true /\ hidden n = false /\ excluded_ending n = false
+      /\ forallb (fun d => negb (named_lib d) && negb (hidden d)) anc = true).
+Proof. exact file_is_hook. Qed.
+Print Assumptions C20_file_or_fifo_is_hook.
+
+(* a hook of any kind whose --config run fails or prints an invalid configuration makes Init
+   fail - in particular a linked hook whose target fails, and a link that cannot be run at all *)
+Theorem C20_bad_hook_fails_init : forall xi e,
+  wf_children (map lstat (x_children xi)) = true -> In e (all_xfiles (x_children xi)) ->
+  xentry_is_hook e = true -> bad_code (run_code xi e) = true ->
+  result (init (x_parent xi) (x_root xi) (map lstat (x_children xi)) (beh_of (to_input xi))) <> InitOk.
+Proof. exact bad_hook_fails_init. Qed.
+Print Assumptions C20_bad_hook_fails_init.
+
+(* the whole predicate on on-disk trees (P and P_files on what the walk sees + the clauses by kind) *)
+Theorem C20_model_satisfies_PX : forall xi,
+  wf_children (map lstat (x_children xi)) = true -> PX xi (model_of (to_input xi)) = true.
+Proof. exact PX_model. Qed.
+Print Assumptions C20_model_satisfies_PX.
+
+(* non-vacuity: a ConfigMap-like / multi-call layout
+     001-x.sh -> lib/multicall.sh (valid)      hook
+     002.sh   regular 0755                      hook
+     mod/h.sh -> ../..data/h.sh (run fails)     hook, makes Init fail
+     lib/multicall.sh, ..data/h.sh              excluded places
+     lib/l -> (valid script)                    link below lib: not a hook
+     d -> directory, z -> nothing               hooks that cannot be run (here after the failing one)
+     p  FIFO 0644                               not a hook
+     README.md -> valid script                  excluded name *)
+Definition b_sh (x : N) : bytes := [x; 46; 115; 104].
+Definition ex_kinds : list xtree :=
+  [ XLink (48 :: 48 :: 49 :: 45 :: b_sh 120) (TFile 493 0);
+    XFile (48 :: 48 :: 50 :: b_sh 120) 493;
+    XDir [109; 111; 100] [XLink (b_sh 104) (TFile 493 1)];
+    XDir [108; 105; 98] [XFile [109] 493; XLink [108] (TFile 493 0)];
+    XDir [46; 46; 100] [XFile (b_sh 104) 493];
+    XLink [110] TDir; XLink [122] TDangling; XFifo [112] 420;
+    XLink [82; 46; 109; 100] (TFile 493 0) ].
+Definition ex_kinds_input : xinput := mkXInput [47; 119] [104] ex_kinds [] true.
+Example C20_kinds_hyp_met :
+  wf_children (map lstat ex_kinds) = true
+  /\ discover [47; 119] [104] (map lstat ex_kinds)
+     = [48 :: 48 :: 49 :: 45 :: b_sh 120; 48 :: 48 :: 50 :: b_sh 120; [109; 111; 100; 47] ++ b_sh 104; [110]; [122]]
+  /\ In ([[109; 111; 100]], b_sh 104, KSymlink (TFile 493 1)) (all_xfiles ex_kinds)
+  /\ xentry_is_hook ([[109; 111; 100]], b_sh 104, KSymlink (TFile 493 1)) = true
+  /\ bad_code (run_code ex_kinds_input ([[109; 111; 100]], b_sh 104, KSymlink (TFile 493 1))) = true
+  /\ result (init [47; 119] [104] (map lstat ex_kinds) (beh_of (to_input ex_kinds_input)))
+     = ErrGetConfig ([47; 119; 47; 104; 47; 109; 111; 100; 47] ++ b_sh 104)
+  /\ PX ex_kinds_input (model_of (to_input ex_kinds_input)) = true.
+Proof. repeat split; try (vm_compute; reflexivity). vm_compute. tauto. Qed.
